@@ -66,7 +66,10 @@ def build_case(rnd, cmds=None, cmd_rate=0.15, config=None, n_addr=None):
         si, mi = pos[a]
         seg = segs[si]
         if mi >= len(seg):
-            events.append(['gdestroy', a])
+            # the last lifetime of an address often stays open at the end of the session (the next session in this process
+            # then meets the same addresses again with a NEW plugin instance)
+            if not (si == len(segs) - 1 and rnd.random() < 0.5):
+                events.append(['gdestroy', a])
             pos[a] = [si + 1, 0]
             continue
         pm = list(seg[mi])
